@@ -500,6 +500,7 @@ func TestVerif_C02(t *testing.T) {
 			for _, passes := range [][]int{{0, 1}, {2}} {
 				cache := vkNewCache()
 				loaded = nil
+				goroutinesBefore := runtime.NumGoroutine()
 				var real []*Epoch
 				okLoad := true
 				for i, e := range eps {
@@ -536,6 +537,7 @@ func TestVerif_C02(t *testing.T) {
 						R.Violation("C02|"+f.class, fmt.Sprintf("[%s pass=%d] %s", cfgName, pass, f.detail), map[string]interface{}{"mask": mask, "conc": conc, "pass": pass, "legacy": cf.legacy})
 					}, func(nt bool) { R.Case(nt, "") })
 				}
+				vkDrain(goroutinesBefore + 2*len(real)) // leftover search jobs must be gone before the epochs are closed
 				for _, ep := range real {
 					ep.Close()
 				}
